@@ -233,6 +233,15 @@ func init() {
 	register("parsemulti", func(a []string) string {
 		return parseMulti(decPOpts(a[0]), bytes.NewReader(unhexz(a[1])))
 	})
+	// roundtripu: the same call; the oracle judges it for names holding well-formed multi-byte UTF-8 letters
+	register("roundtripu", func(a []string) string {
+		al, err := buildAlign(a[3], decXRows(a[4]))
+		if err != nil {
+			return "err-build"
+		}
+		out := writeFmt(a[0], decWOpts(a[1]), al)
+		return outcome(parseFmt(a[0], decPOpts(a[2]), strings.NewReader(out)))
+	})
 	// roundtrip <fmt> <wopts> <popts> <alphabet|auto> <xrows>
 	register("roundtrip", func(a []string) string {
 		al, err := buildAlign(a[3], decXRows(a[4]))
